@@ -11,7 +11,7 @@ from ..astutil import (
 from ..cfg import no_exc
 from ..report import Registry, sub, chain
 from ._helpers_rules_c import (
-    attr_store_sites, both, call_nodes, calls_ending, cut_edges, must_pass, rcfg, test_edges,
+    attr_store_sites, both, call_nodes, calls_ending, cut_edges, must_pass, quiet, rcfg, test_edges,
 )
 
 R = Registry(
@@ -138,7 +138,7 @@ def overflow_pairing(ctx):
     ctx.require(create, "no _create_connection() after a successful _inc_overflow() in _do_get")
     w = None
     for n in create:
-        w = g.must_pass([n], [g.raise_exit], dec, start_edge_ok=lambda a, b, lab: lab == "exc")
+        w = g.must_pass([n], [g.raise_exit], dec, edge_ok=quiet(g), start_edge_ok=lambda a, b, lab: lab == "exc")
         if w:
             break
     ctx.check(w is None, f.key + ":create-failure",
@@ -156,7 +156,7 @@ def overflow_pairing(ctx):
     put = calls_ending(gr, "put", "put_nowait")
     ctx.require(any(h in [b for b, lab in gr.succ[p] if lab == "exc"] for p in put for h in full),
                 "`except Full` does not guard the queue put in _do_return_conn")
-    w = gr.must_pass(full, [gr.exit, gr.raise_exit], decr)
+    w = gr.must_pass(full, [gr.exit, gr.raise_exit], decr, edge_ok=quiet(gr))
     ctx.check(w is None, fr.key + ":full",
               "when the queue is full the overflow connection can be discarded (or fail to close) without "
               "_dec_overflow(): the counter leaks",
@@ -378,7 +378,7 @@ def r6(ctx):
                 continue
             atoms = test_atoms(t, True)
             if ("self.fairy_ref is None", True) in atoms and all(
-                a == "self.fairy_ref is None" or names_in(ast.parse(a, mode="eval")) <= set(f.params) for a, _ in atoms
+                a == "self.fairy_ref is None" or names_in(ast.parse(a, mode="eval")) <= set(f.params) - {"self"} for a, _ in atoms
             ):
                 ok = True
         refused = refused and ok
@@ -443,9 +443,10 @@ R.mutant("fairy-ref-written-by-invalidate", POOL,
 R.mutant("checkin-no-double-checkin-guard", POOL,
          sub("        if self.fairy_ref is None and _fairy_was_created:", "        if self.fairy_ref is None and _fairy_was_created and self.fresh:"), "C25-R6")
 R.mutant("checkin-clears-fairy-ref-late", POOL,
-         sub("        self.fairy_ref = None\n        connection = self.dbapi_connection\n        pool = self.__pool\n", "        connection = self.dbapi_connection\n        pool = self.__pool\n"), "C25-R6")
+         chain(sub("        self.fairy_ref = None\n        connection = self.dbapi_connection\n        pool = self.__pool\n", "        connection = self.dbapi_connection\n        pool = self.__pool\n"),
+               sub("        pool._return_conn(self)\n", "        pool._return_conn(self)\n        self.fairy_ref = None\n")), "C25-R6")
 # benign refactors
-R.mutant("benign-queue-rename-local", QUEUE, sub("remaining", "left", count=8), None)
+R.mutant("benign-queue-rename-local", QUEUE, sub("remaining", "left", count=6), None)
 R.mutant("benign-checkedout-reordered", IMPL,
          sub("        return self._pool.maxsize - self._pool.qsize() + self._overflow\n", "        return self._overflow + self._pool.maxsize - self._pool.qsize()\n"), None)
 R.mutant("benign-do-get-logging", IMPL,
